@@ -404,16 +404,16 @@ theorem C07.pcgnr_success_true_residual (S : Sys V α) (hl : Lawful S) (c : Conf
   exact (h2.2.1 hs).1
 
 /-- BiCGStab `correct()` (left-preconditioned), for every preconditioner function and whatever control state `st0`
-    the previous solve left: terminal status; unless the preconditioner failed, the initial defect is `‖F(b − A x0)‖`,
-    a run without iterations is a `success` of the initial check on the untouched start vector, and a run with
+    the previous solve left: terminal status; the initial defect is always `‖F(b − A x0)‖` (also when the
+    preconditioner fails on it: fix of finding c07-edge:F6); unless the preconditioner failed, a run without iterations is a `success` of the initial check on the untouched start vector, and a run with
     iterations ended either in the half-step test — the stored defect is the true residual norm of the returned
     iterate and meets the tolerances (`success`) / exceeds a divergence limit (`diverged`) — or in `_set_new_defect`
     applied to the true residual norm of the returned iterate (`FinalStep`, read off by `finalStep_facts`) -/
 theorem C07.bicg_correct_sound (S : Sys V α) (hl : Lawful S) (c : Config α) (st0 : State α) (x0 b : V)
     (res : Result V α) (h : bicgCorrect S c st0 x0 b = some res) :
-    res.status ≠ .undefined ∧ res.status ≠ .progress ∧
-      (res.status ≠ .aborted → res.st.defInit = S.nrm (resid S b x0) ∧
-        ((res.st.numIter = 0 ∧ res.x = x0 ∧ res.status = .success ∧
+    res.status ≠ .undefined ∧ res.status ≠ .progress ∧ res.st.defInit = S.nrm (resid S b x0) ∧
+      (res.status ≠ .aborted →
+        ((res.st.numIter = 0 ∧ res.x = x0 ∧ res.st.defCur = S.nrm (resid S b x0) ∧ res.status = .success ∧
             (S.nrm (resid S b x0) < c.tolAbsLow ∨ S.nrm (resid S b x0) ≤ c.eps2)) ∨
          (0 < res.st.numIter ∧
             ((res.st.defCur = S.nrm (resid S b res.x) ∧
@@ -430,7 +430,9 @@ theorem C07.bicg_success_true_residual (S : Sys V α) (hl : Lawful S) (c : Confi
     (hit : 0 < res.st.numIter) (hc : calcDef c res.st.numIter = true) :
     S.nrm (resid S b res.x) ≤ c.tolAbs ∧
       (S.nrm (resid S b res.x) ≤ c.tolRel * S.nrm (resid S b x0) ∨ S.nrm (resid S b res.x) ≤ c.tolAbsLow) := by
-  obtain ⟨hd0, hcase⟩ := (C07.bicg_correct_sound S hl c st0 x0 b res h).2.2 (by rw [hs]; simp)
+  have hsd := C07.bicg_correct_sound S hl c st0 x0 b res h
+  have hd0 := hsd.2.2.1
+  have hcase := hsd.2.2.2 (by rw [hs]; simp)
   rcases hcase with ⟨hz, _⟩ | ⟨_, hhalf | hfin⟩
   · omega
   · obtain ⟨hcur, hst⟩ := hhalf
@@ -446,7 +448,7 @@ theorem C07.bicg_success_true_residual (S : Sys V α) (hl : Lawful S) (c : Confi
 theorem C07.bicg_success_min_iter (S : Sys V α) (hl : Lawful S) (c : Config α) (st0 : State α) (x0 b : V)
     (res : Result V α) (h : bicgCorrect S c st0 x0 b = some res) (hs : res.status = .success)
     (hit : 0 < res.st.numIter) : c.minIter ≤ res.st.numIter := by
-  obtain ⟨_, hcase⟩ := (C07.bicg_correct_sound S hl c st0 x0 b res h).2.2 (by rw [hs]; simp)
+  have hcase := (C07.bicg_correct_sound S hl c st0 x0 b res h).2.2.2 (by rw [hs]; simp)
   rcases hcase with ⟨hz, _⟩ | ⟨_, hhalf | hfin⟩
   · omega
   · rcases hhalf.2 with ⟨_, _, _, hmin⟩ | ⟨hdv, _⟩
@@ -467,27 +469,9 @@ theorem C07.bicg_returned_defect (S : Sys V α) (hl : Lawful S) (c : Config α) 
     (res : Result V α) (h : bicgCorrect S c st0 x0 b = some res) (hna : res.status ≠ .aborted)
     (hc : res.st.numIter = 0 ∨ calcDef c res.st.numIter = true) :
     res.st.defCur = S.nrm (resid S b res.x) := by
-  simp only [bicgCorrect] at h
-  have hsp := bicgIntern_spec S hl c st0 b x0 _ res rfl h
-  obtain ⟨hd0, hcase⟩ := hsp.2.2 hna
-  rcases hcase with ⟨hz, hx, _, _⟩ | ⟨hpos, hhalf | hfin⟩
-  · -- no iteration: the state is the one `_set_initial_defect` wrote
-    simp only [bicgIntern] at h
-    split at h
-    · simp only [Option.some.injEq] at h; subst h; exact absurd rfl hna
-    · rcases hsi : setInitialDefect c st0 true (S.nrm (resid S b x0)) with ⟨status, st⟩
-      rw [hsi] at h
-      have hst := (setInitial_spec c st0 true _ _ _ hsi).1
-      simp only at h
-      split at h
-      · simp only [Option.some.injEq] at h
-        subst h
-        subst hst
-        rfl
-      · have := bicgLoop_spec S hl c b _ _ x0 _ _ _ _ st _ _ res rfl (by subst hst; simp)
-          (by subst hst; simp [fuelOf]) h
-        have := (this.2.2.2 hna).1
-        omega
+  have hcase := (C07.bicg_correct_sound S hl c st0 x0 b res h).2.2.2 hna
+  rcases hcase with ⟨_, hx, hcur, _⟩ | ⟨hpos, hhalf | hfin⟩
+  · rw [hx]; exact hcur
   · exact hhalf.1
   · rcases hc with hc | hc
     · omega
@@ -505,40 +489,28 @@ theorem C07.initial_defect_resets_state (c : Config α) (prev1 prev2 : State α)
     setInitialDefect c prev1 fin d = setInitialDefect c prev2 fin d :=
   setInitial_indep c prev1 prev2 fin d
 
-/-- PCG, Richardson, PCR, PMR: the complete outcome of one `apply()`/`correct()` (status, iterate, counters, defects,
-    defect history) is the same for ANY two control states of the solver object — whatever status, iteration count,
-    stagnation count and defects the previous solve ended with -/
-theorem C07.solve_independent_of_history (k : Kind) (hk : k ≠ .bicgstab) (S : Sys V α) (c : Config α) (omega : α)
+/-- every solver kind (PCG, Richardson, PCR, PMR, PCGNR, BiCGStab): the complete outcome of one `apply()`/`correct()`
+    (status, iterate, counters, defects, defect history) is the same for ANY two control states of the solver object —
+    whatever status, iteration count, stagnation count and defects the previous solve ended with -/
+theorem C07.solve_independent_of_history (k : Kind) (S : Sys V α) (c : Config α) (omega : α)
     (prev1 prev2 : State α) (isApply : Bool) (x0 b : V) :
     solveOne k S c omega prev1 isApply x0 b = solveOne k S c omega prev2 isApply x0 b :=
-  solveOne_indep k hk S c omega prev1 prev2 isApply x0 b
+  solveOne_indep k S c omega prev1 prev2 isApply x0 b
 
 /-- session level ("repeating a solve on the same solver object gives the same result"): a session on ONE persistent
     solver object (the function the driver executes against one real solver object) equals running every solve on a
-    brand-new object, for every sequence of solves and every initial state -/
-theorem C07.session_independent (k : Kind) (hk : k ≠ .bicgstab) (S : Sys V α) (c : Config α) (omega : α)
+    brand-new object, for every solver kind, every sequence of solves and every initial state -/
+theorem C07.session_independent (k : Kind) (S : Sys V α) (c : Config α) (omega : α)
     (prev st : State α) (l : List (Bool × V × V)) :
     runSession k S c omega prev l = independentSession k S c omega st l :=
-  runSession_indep k hk S c omega st l prev
+  runSession_indep k S c omega st l prev
 
-/-- BiCGStab: status and returned iterate never depend on the history -/
-theorem C07.bicg_status_independent_of_history (S : Sys V α) (c : Config α) (omega : α) (prev1 prev2 : State α)
-    (isApply : Bool) (x0 b : V) :
-    (solveOne .bicgstab S c omega prev1 isApply x0 b).map (fun res => (res.status, res.x)) =
-      (solveOne .bicgstab S c omega prev2 isApply x0 b).map (fun res => (res.status, res.x)) := by
-  cases isApply
-  · simp only [solveOne, Bool.false_eq_true, ↓reduceIte, bicgCorrect]
-    exact bicgIntern_indep_status S c prev1 prev2 _ _
-  · simp only [solveOne, ↓reduceIte, bicgApply]
-    exact bicgIntern_indep_status S c prev1 prev2 _ _
-
-/-- BiCGStab sessions are independent of the history as long as the preconditioner does not fail on an initial defect
-    (if it does, BiCGStab returns `aborted` BEFORE `_set_initial_defect`, so `get_num_iter()`/`get_def_*()` still show
-    the previous solve: open finding c07-edge:F6, which is why this theorem is `_partial`) -/
-theorem C07.bicg_session_independent_partial (S : Sys V α) (c : Config α) (omega : α) (prev st : State α)
-    (l : List (Bool × V × V)) (h : ∀ e ∈ l, S.prec 0 (startDefect S e.1 e.2.1 e.2.2) ≠ none) :
+/-- BiCGStab sessions in particular (full strength since the fix of finding c07-edge:F6: no hypothesis about the
+    preconditioner) -/
+theorem C07.bicg_session_independent (S : Sys V α) (c : Config α) (omega : α) (prev st : State α)
+    (l : List (Bool × V × V)) :
     runSession .bicgstab S c omega prev l = independentSession .bicgstab S c omega st l :=
-  runSession_indep_bicg S c omega st l h prev
+  C07.session_independent .bicgstab S c omega prev st l
 
 end sessions
 
